@@ -1133,6 +1133,10 @@ pub fn check_case(case: &Case, ctx: &mut Ctx) -> CaseResult {
         Err(("stats".to_string(), format!("{} {} {} {} {} {} {} {} {} {} {} {}", stats.0, stats.1, stats.2, stats.3, stats.4, stats.5, stats.6, c.0, c.1, c.2, c.3, c.4), false))
     });
     match result {
+        Err(f) if case.features.contains(&"calls") => {
+            ctx.label(&format!("observation-beyond-the-property-domain(program-with-calls):analysis:{}", f.signature));
+            Ok(())
+        }
         Err(f) => ctx.report(format!("C13:analysis:{}", f.signature), format!("{}\n{}", f.detail, project.program.term)),
         Ok(Ok(())) => Ok(()),
         Ok(Err((sig, detail, aliasing))) => {
@@ -1179,6 +1183,15 @@ pub fn check_case(case: &Case, ctx: &mut Ctx) -> CaseResult {
                 }
                 return Ok(());
             }
+            if case.features.contains(&"calls") {
+                // The property quantifies over single-function programs over registers and stack memory. Programs with
+                // calls (extern, indirect, an internal callee) are explored beyond that domain: what is found there is
+                // recorded as an observation (label + sample + saved replay text), never as a violation of C13.
+                ctx.label(&format!("observation-beyond-the-property-domain(program-with-calls):{}{}", if aliasing { "identifier-alias-assumption:" } else { "" }, sig));
+                let text = format!("OBSERVATION (program with calls, outside the domain of C13) {}\n{}\n{}", sig, detail, project.program.term);
+                ctx.sample(|| text.chars().take(3000).collect());
+                return Ok(());
+            }
             if aliasing {
                 ctx.label("failure-only-in-aliasing-state");
                 return ctx.report(format!("C13:identifier-alias-assumption:{}", sig), format!("(initial state violates the analysis' documented assumption that different identifiers / absolute values never denote the same value)\n{}\n{}", detail, project.program.term));
@@ -1189,7 +1202,7 @@ pub fn check_case(case: &Case, ctx: &mut Ctx) -> CaseResult {
 }
 
 pub fn run(eng: &mut Engine) {
-    eng.rule = "cases = generated single-function programs (2..8 blocks, loops and comparison-guarded branches, register arithmetic, flag definitions, stack stores/loads at constant offsets through RSP/RBP, SP adjustments, accesses through small constant addresses; no calls, no non-stack pointers) analysed by the real pipeline (normalize, CFG, function signatures, pointer inference) x 8 initial states (6 with parameter registers/SP pairwise far apart, 2 aliasing); the harness' interpreter checks at every block arrival that the block has an analysis state and that every physical register's concrete value is a member of its abstract value (own interval membership; parameter identifiers read as entry values, unknown identifiers/top count as represented); non-trivial = a loop was executed and >= 3 distinct blocks visited; distinct by hash of the normalized program".into();
+    eng.rule = "DOMAIN OF THE VERDICT: programs without calls (the property speaks of single-function programs over registers and stack memory); programs with calls are explored too, failures there are observations (labels observation-beyond-the-property-domain:*), not violations. cases = generated single-function programs (2..8 blocks, loops and comparison-guarded branches, register arithmetic, flag definitions, stack stores/loads at constant offsets through RSP/RBP, SP adjustments, accesses through small constant addresses; no calls, no non-stack pointers) analysed by the real pipeline (normalize, CFG, function signatures, pointer inference) x 8 initial states (6 with parameter registers/SP pairwise far apart, 2 aliasing); the harness' interpreter checks at every block arrival that the block has an analysis state and that every physical register's concrete value is a member of its abstract value (own interval membership; parameter identifiers read as entry values, unknown identifiers/top count as represented); non-trivial = a loop was executed and >= 3 distinct blocks visited; distinct by hash of the normalized program".into();
     eng.assumptions = vec![
         "irinterp/refsem are the IR semantics; accesses to addresses in (-1024,1024) abort the run".into(),
         "cases whose pointer inference does not stabilize are skipped (premise) and counted".into(),
